@@ -92,6 +92,18 @@ func runRS(rv, sv *big.Int, v byte) string {
 	if !scEq(r, rv) || !scEq(s, sv) {
 		return "Build* modified its operands"
 	}
+	// retained outputs: building ANOTHER signature must not change bytes handed out earlier
+	keep := [][]byte{der, c, cr}
+	copies := [][]byte{append([]byte{}, der...), append([]byte{}, c...), append([]byte{}, cr...)}
+	o1, o2 := lib.MkSC(big.NewInt(0x1234)), lib.MkSC(ref.HalfN)
+	secec.BuildASN1Signature(o1, o2)
+	secec.BuildCompactSignature(o1, o2)
+	secec.BuildCompactRecoverableSignature(o1, o2, 2)
+	for i := range keep {
+		if !bytes.Equal(keep[i], copies[i]) {
+			return "bytes returned by an earlier Build* call changed when another signature was built (shared backing array)"
+		}
+	}
 	return ""
 }
 
@@ -181,6 +193,15 @@ func runSPKI(b []byte) string {
 	}
 	if len(b) == len(re) && !bytes.Equal(re, b) {
 		return "re-encoding a parsed uncompressed key does not reproduce the input"
+	}
+	// history step: another key is encoded in between; the bytes handed out earlier must not change
+	held := pk.ASN1Bytes()
+	heldCopy := append([]byte{}, held...)
+	other, _ := secec.NewPublicKey(ref.G().Mul(big.NewInt(0x4242)).Uncompressed())
+	_ = other.ASN1Bytes()
+	_ = other.Bytes()
+	if !bytes.Equal(held, heldCopy) {
+		return "bytes returned by ASN1Bytes() changed when another key was encoded (shared backing array)"
 	}
 	// history step: the caller reuses / wipes its input buffer after the parse; the key must not notice
 	for i := range in {
@@ -429,6 +450,28 @@ func spkiCorpus(pts []mc.PVal, thorough bool) [][]byte {
 		mc.Delete1(t[:hdr], func(b []byte) { s.add(cat(b, t[hdr:])) })
 		// one deviation in the payload, a few values
 		mc.Subst1(t[hdr:], []byte{0x00, 0x01, 0xff}, func(b []byte, _ int, _ byte) { s.add(cat(t[:hdr], b)) })
+	}
+	// cross-template splices: every prefix of one template followed by every suffix-aligned payload of the
+	// other kind (uncompressed header + compressed point, compressed header + uncompressed point, truncated
+	// payloads behind full headers): two simultaneous deviations that single substitutions do not reach
+	for _, pt := range []ref.Pt{g, g.Mul(big.NewInt(2)), g.Mul(big.NewInt(3))} {
+		u, c := pt.Uncompressed(), pt.Compressed()
+		s.add(cat(tU[:hdrU], c))
+		s.add(cat(tC[:hdrC], u))
+		s.add(cat(tU[:hdrU-1], c))
+		s.add(cat(tC[:hdrC-1], u))
+		s.add(cat(tU[:hdrU-1], []byte{0x04}, c[1:]))
+		s.add(cat(tU[:hdrU], u[:33]))
+		s.add(cat(tU[:hdrU], u[:32]))
+		s.add(cat(tC[:hdrC], c, c[1:]))
+		for _, l1 := range []byte{0x36, 0x56, 0x37, 0x55} {
+			for _, l2 := range []byte{0x22, 0x42, 0x21, 0x43} {
+				for _, payload := range [][]byte{u, c} {
+					b := cat([]byte{0x30, l1}, tU[2:20], []byte{0x03, l2, 0x00}, payload)
+					s.add(b)
+				}
+			}
+		}
 	}
 	// unused-bits byte 0..255 with the content shifted left accordingly (and not shifted)
 	for _, pt := range [][]byte{g.Uncompressed(), g.Compressed(), g.Mul(big.NewInt(2)).Uncompressed()} {
